@@ -715,11 +715,45 @@ def blocks(tier):
     n1, n2 = N_BLOCKS_1[tier], N_BLOCKS_2[tier]
     out = [{"space": "encoding", "tier": tier, "shard": i, "of": n1} for i in range(n1)]
     out += [{"space": "pairs", "tier": tier, "shard": i, "of": n2} for i in range(n2)]
+    out.append({"space": "long", "tier": tier})
+    return out
+
+
+def run_long(case):
+    """A vocabulary tag listed m times (m around and beyond 255) between one other vocabulary tag and an out-of-vocabulary tag:
+    the indicator vector marks presence, the class is that of the first vocabulary tag in the list."""
+    out = Out(case)
+    uni, EQ, PT, F32 = universe_ctx()
+    vocab = [0, 1, 3]
+    m = case["m"]
+    tags = [2] + [0] * m + [1]  # universe tag 2 is out of this vocabulary
+    enc = create_tag_encoder([uni[i] for i in vocab])
+    L = [uni[i] for i in tags]
+    out.transitions = out.validated = 2
+    out.nontrivial = True
+    try:
+        a = multilabel_encoding(list(L), enc)
+        ok = isinstance(a, np.ndarray) and a.tolist() == [1, 1, 0]
+        obs = a.tolist() if isinstance(a, np.ndarray) else repr(a)
+    except Exception as e:  # noqa
+        ok, obs = False, _exc(e)
+    out.expect("multilabel_indicator", ok, obs, [1, 1, 0], {"fn": "multilabel_encoding", "kind": "long_list", "m": m})
+    try:
+        r = classification_encoding(list(L), enc)
+        ok, obs = _is_index(r, 0), r
+    except Exception as e:  # noqa
+        ok, obs = False, _exc(e)
+    out.expect("classification_first_hit", ok, obs, 0, {"fn": "classification_encoding", "kind": "long_list", "m": m})
+    out.klass = "long:%s" % ("ok" if not out.viol else "viol")
     return out
 
 
 def run_block(block, rec):
     tier = block["tier"]
+    if block["space"] == "long":
+        for m in (255, 256, 257, 511, 512, 65536):
+            rec.add(run_case({"space": "long", "m": m}))
+        return
     if block["space"] == "encoding":
         _, EQ, _, _ = universe_ctx()
         n = UNIVERSE_N[tier]
@@ -757,6 +791,8 @@ def run_case(case):
         return run_encoder(case)
     if sp == "lists":
         return run_lists(case)
+    if sp == "long":
+        return run_long(case)
     return run_pair(case)
 
 
